@@ -1251,6 +1251,9 @@ class DigitalWaveform(Generic[TDigitalState]):
     def _increase_capacity(self, amount: int) -> None:
         new_capacity = self._start_index + self._sample_count + amount
         if new_capacity > self.capacity:
+            # Don't grow a buffer that the following copy cannot write to.
+            if not self._data.flags.writeable:
+                raise ValueError("assignment destination is read-only")
             self.capacity = new_capacity
 
     def load_data(
@@ -1320,6 +1323,9 @@ class DigitalWaveform(Generic[TDigitalState]):
 
         if copy:
             if sample_count > len(self._data):
+                # Don't grow a buffer that the following copy cannot write to.
+                if not self._data.flags.writeable:
+                    raise ValueError("assignment destination is read-only")
                 self.capacity = sample_count
             self._data[0:sample_count] = array[start_index : start_index + sample_count]
             self._start_index = 0
